@@ -39,11 +39,11 @@ IsPrefix(a, b) == Len(a) <= Len(b) /\ SubSeq(b, 1, Len(a)) = a
 HEnv(vars, par) == [h |-> "env", vars |-> vars, par |-> par]
 HFun(fn, env)   == [h |-> "fun", fn |-> fn, env |-> env]
 HArr(es)        == [h |-> "arr", es |-> es]
-HObj(ks, vs)    == [h |-> "obj", ks |-> ks, vs |-> vs]                 \* own properties in insertion order
+HObj(ks, kd, vs) == [h |-> "obj", ks |-> ks, kd |-> kd, vs |-> vs]     \* own properties in insertion order; kd: init / get / set
 HErr(cls, msg, site, rt) == [h |-> "err", cls |-> cls, msg |-> msg, site |-> site, rt |-> rt, infn |-> FALSE]
                                   \* site: node of the last throw; rt: raised by the machine itself; infn: thrown inside a function
 ErrCtors == {"Error", "TypeError", "ReferenceError", "RangeError", "SyntaxError"}
-ArrMethods == {"forEach", "map", "push"}
+ArrMethods == {"forEach", "map", "push", "sort"}
 BuiltinNames == ErrCtors \cup {"log", "undefined"}
 Builtin(x) == IF x = "undefined" THEN VUndef ELSE VNat(x)
 
@@ -100,8 +100,10 @@ GetProp(heap, ov, pv) ==
                          ELSE LET ix == IdxOf(pv) IN
                               IF ix >= 0 /\ ix < Len(ho.es) THEN ho.es[ix + 1]
                               ELSE IF ix >= Len(ho.es) THEN VUndef ELSE Unsup
-      [] ho.h = "obj" -> LET key == KeyOf(pv)  S == {j \in 1..Len(ho.ks) : ho.ks[j] = key}
-                         IN IF key = "?" THEN Unsup ELSE IF S = {} THEN VUndef ELSE ho.vs[CHOOSE j \in S : TRUE]
+      [] ho.h = "obj" -> LET key == KeyOf(pv)  S == {j \in 1..Len(ho.ks) : ho.ks[j] = key /\ ho.kd[j] # "set"}
+                         IN IF key = "?" THEN Unsup ELSE IF S = {} THEN VUndef
+                            ELSE LET j == CHOOSE q \in S : TRUE IN
+                                 IF ho.kd[j] = "get" THEN [t |-> "getter", fn |-> ho.vs[j]] ELSE ho.vs[j]
       [] ho.h = "err" -> (CASE pv = VStr("name") -> VStr(ho.cls) [] pv = VStr("message") -> VStr(ho.msg)
                             [] pv = VStr("lineNumber") -> VLoc(ho.site, "line")
                             [] pv = VStr("columnNumber") -> VLoc(ho.site, "col")
@@ -113,7 +115,8 @@ KeysOf(heap, ov) ==
   ELSE IF ov.t # "ref" THEN <<Unsup>>
   ELSE LET ho == heap[ov.r] IN
     CASE ho.h = "arr" -> [j \in 1..Len(ho.es) |-> VStr(IntStr(j - 1))]
-      [] ho.h = "obj" -> [j \in 1..Len(ho.ks) |-> VStr(ho.ks[j])]
+      [] ho.h = "obj" -> LET first == SelectSeq([j \in 1..Len(ho.ks) |-> j], LAMBDA j : \A q \in 1..(j - 1) : ho.ks[q] # ho.ks[j])
+                         IN [j \in 1..Len(first) |-> VStr(ho.ks[first[j]])]
       [] OTHER -> <<Unsup>>
 ElemsOf(heap, ov) == IF ov.t = "ref" /\ heap[ov.r].h = "arr" THEN heap[ov.r].es ELSE <<Unsup>>
 
@@ -150,10 +153,6 @@ AsIsLoc(st, ov, r) ==
        ELSE IF ~ho.rt /\ ho.infn /\ D(st, "Dev_NoLocInFunctions") THEN [v |-> [t |-> "hostnone"], d |-> "Dev_NoLocInFunctions"]
        ELSE IF D(st, "Dev_LocNextStatement") THEN [v |-> [t |-> "anyloc"], d |-> "Dev_LocNextStatement"]
        ELSE [v |-> r, d |-> ""]
-RetOrThrow(st, ov, r, nid) ==
-  IF r.t = "throwmark" THEN ThrowErr(st, "TypeError", nid)
-  ELSE LET q == AsIsLoc(st, ov, r) IN Ret(IF q.d = "" THEN st ELSE Fire(st, q.d), q.v)
-
 \* normal completion with value v of a loop / switch / labelled / try statement.
 \* Dev_CompletionTail (as-is): only expression statements, blocks and if statements in tail position produce the completion
 \* value of a script; every other statement completes with undefined, and a statement list yields its last statement's value.
@@ -179,10 +178,18 @@ SetProp(st, ov, pv, v) ==
                          ELSE IF ix = Len(ho.es) THEN [st EXCEPT !.heap[ov.r].es = Append(@, v)]
                          ELSE Flag(st)
       [] ho.h = "obj" -> LET key == KeyOf(pv)  S == {j \in 1..Len(ho.ks) : ho.ks[j] = key} IN
-                         IF key = "?" THEN Flag(st)
-                         ELSE IF S = {} THEN [st EXCEPT !.heap[ov.r].ks = Append(@, key), !.heap[ov.r].vs = Append(@, v)]
+                         IF key = "?" \/ \E j \in S : ho.kd[j] # "init" THEN Flag(st)        \* accessors: see SetterOf
+                         ELSE IF S = {} THEN [st EXCEPT !.heap[ov.r].ks = Append(@, key), !.heap[ov.r].kd = Append(@, "init"),
+                                                        !.heap[ov.r].vs = Append(@, v)]
                          ELSE [st EXCEPT !.heap[ov.r].vs[CHOOSE j \in S : TRUE] = v]
       [] OTHER -> Flag(st)
+
+\* the setter function of an accessor property, or VUndef
+SetterOf(heap, ov, pv) ==
+  IF ov.t = "ref" /\ heap[ov.r].h = "obj"
+  THEN LET ho == heap[ov.r]  S == {j \in 1..Len(ho.ks) : ho.ks[j] = KeyOf(pv) /\ ho.kd[j] = "set"}
+       IN IF S = {} THEN VUndef ELSE ho.vs[CHOOSE j \in S : TRUE]
+  ELSE VUndef
 
 \* ---------------- calls ---------------------------------------------------------------------------------
 FdeclAsFun(d) == [e |-> "fun", name |-> d.name, params |-> d.params, body |-> d.body, arrow |-> FALSE]
@@ -209,7 +216,7 @@ CallClosure(st, fref, args) ==
       s2 == IF ~hoist /\ Len(fds) > 0 THEN Fire(s1, "Dev_NoFnHoist") ELSE s1
   IN Ex(Push([s2 EXCEPT !.env = envAddr], [f |-> "callret", env |-> st.env]), SBlock(fn.body))
 
-RECURSIVE NatIter(_)
+RECURSIVE NatIter(_), DoCall(_, _, _, _, _)
 \* st has a "nat" frame on top: run the callback on the next element, or finish
 DoCall(st, fv, thisv, args, nid) ==
   IF fv.t = "ref" /\ st.heap[fv.r].h = "fun" THEN CallClosure(st, fv.r, args)
@@ -223,6 +230,11 @@ DoCall(st, fv, thisv, args, nid) ==
          [] fv.n = "push" -> IF thisv.t = "ref" /\ st.heap[thisv.r].h = "arr"
                              THEN Ret([st EXCEPT !.heap[thisv.r].es = Append(@, Arg(args, 1))], VInt(Len(st.heap[thisv.r].es) + 1))
                              ELSE Ret(st, Unsup)
+         [] fv.n = "sort" ->                                \* only a comparator that throws at once is inside the fragment
+              IF thisv.t = "ref" /\ st.heap[thisv.r].h = "arr"
+              THEN (IF Len(st.heap[thisv.r].es) < 2 THEN Ret(st, thisv)
+                    ELSE DoCall(Push(st, [f |-> "natsort"]), Arg(args, 1), VUndef, <<st.heap[thisv.r].es[1], st.heap[thisv.r].es[2]>>, nid))
+              ELSE Ret(st, Unsup)
          [] fv.n \in {"forEach", "map"} ->
               IF thisv.t = "ref" /\ st.heap[thisv.r].h = "arr"
               THEN NatIter(Push(st, [f |-> "nat", n |-> fv.n, arr |-> thisv.r, fn |-> Arg(args, 1), idx |-> 0,
@@ -235,6 +247,11 @@ NatIter(st) ==
   THEN DoCall(Repl(st, [fr EXCEPT !.idx = @ + 1]), fr.fn, VUndef, <<es[fr.idx + 1], VInt(fr.idx), VRef(fr.arr)>>, fr.nid)
   ELSE IF fr.n = "forEach" THEN Ret(Pop(st), VUndef)
   ELSE Ret(Alloc(Pop(st), <<HArr(fr.acc)>>), VRef(Len(st.heap) + 1))
+
+RetOrThrow(st, ov, r, nid) ==
+  IF r.t = "throwmark" THEN ThrowErr(st, "TypeError", nid)
+  ELSE IF r.t = "getter" THEN DoCall(st, r.fn, ov, <<>>, nid)                        \* accessor property: run the getter
+  ELSE LET q == AsIsLoc(st, ov, r) IN Ret(IF q.d = "" THEN st ELSE Fire(st, q.d), q.v)
 
 \* evaluate the next argument of a call / new, or perform it  (frame "args" on top)
 ArgsNext(st) ==
@@ -365,8 +382,8 @@ StepE(st, x) ==
          ELSE Ret(Alloc(st, <<HFun(x, st.env)>>), VRef(Len(st.heap) + 1))
     [] x.e = "arr" -> IF x.a = <<>> THEN Ret(Alloc(st, <<HArr(<<>>)>>), VRef(Len(st.heap) + 1))
                       ELSE Ev(Push(st, [f |-> "arrlit", done |-> <<>>, rest |-> Tail(x.a)]), Head(x.a))
-    [] x.e = "obj" -> IF x.vs = <<>> THEN Ret(Alloc(st, <<HObj(<<>>, <<>>)>>), VRef(Len(st.heap) + 1))
-                      ELSE Ev(Push(st, [f |-> "objlit", ks |-> x.ks, done |-> <<>>, rest |-> Tail(x.vs)]), Head(x.vs))
+    [] x.e = "obj" -> IF x.vs = <<>> THEN Ret(Alloc(st, <<HObj(<<>>, <<>>, <<>>)>>), VRef(Len(st.heap) + 1))
+                      ELSE Ev(Push(st, [f |-> "objlit", ks |-> x.ks, kd |-> x.kd, done |-> <<>>, rest |-> Tail(x.vs)]), Head(x.vs))
     [] x.e = "seq" -> Ev(Push(st, [f |-> "comma", rest |-> Tail(x.a)]), Head(x.a))
     [] OTHER -> HaltWith(st, [o |-> "unsupported"])
 
@@ -421,7 +438,11 @@ StepV(st, v) ==
                          ELSE Ev(Push(s0, [f |-> "masgp", ov |-> v, x |-> fr.x]), fr.x.m.p)
     [] fr.f = "masgp" -> Ev(Push(s0, [f |-> "masgr", ov |-> fr.ov, pv |-> v, nid |-> fr.x.m.nid]), fr.x.r)
     [] fr.f = "masgr" -> IF fr.ov.t \in {"undef", "null"} THEN ThrowErr(s0, "TypeError", fr.nid)
-                         ELSE Ret(SetProp(s0, fr.ov, fr.pv, v), v)
+                         ELSE LET sf == SetterOf(s0.heap, fr.ov, fr.pv) IN
+                              IF sf.t # "undef" THEN DoCall(Push(s0, [f |-> "setret", v |-> v]), sf, fr.ov, <<v>>, fr.nid)
+                              ELSE Ret(SetProp(s0, fr.ov, fr.pv, v), v)
+    [] fr.f = "setret" -> Ret(s0, fr.v)                     \* the value of an assignment is the assigned value
+    [] fr.f = "natsort" -> Ret(s0, Unsup)                   \* a comparator that returns: sorting is not modelled
     \* member update  o[p]++ ...
     [] fr.f = "mupdo" -> IF fr.x.m.dot THEN StepVMupd(s0, fr.x, v, VStr(fr.x.m.p.s))
                          ELSE Ev(Push(s0, [f |-> "mupdp", ov |-> v, x |-> fr.x]), fr.x.m.p)
@@ -430,19 +451,19 @@ StepV(st, v) ==
     [] fr.f = "callo" -> IF fr.x.f.dot
                          THEN LET fv == GetProp(s0.heap, v, VStr(fr.x.f.p.s)) IN
                               IF fv.t = "throwmark" THEN ThrowErr(s0, "TypeError", fr.x.f.nid)
-                              ELSE IF fv.t = "unsup" THEN Ret(s0, Unsup)
+                              ELSE IF fv.t \in {"unsup", "getter"} THEN Ret(s0, Unsup)
                               ELSE ArgsNext(Push(s0, ArgsFrame(fv, v, fr.x, FALSE)))
                          ELSE Ev(Push(s0, [f |-> "callp", ov |-> v, x |-> fr.x]), fr.x.f.p)
     [] fr.f = "callp" -> LET fv == GetProp(s0.heap, fr.ov, v) IN
                          IF fv.t = "throwmark" THEN ThrowErr(s0, "TypeError", fr.x.f.nid)
-                         ELSE IF fv.t = "unsup" THEN Ret(s0, Unsup)
+                         ELSE IF fv.t \in {"unsup", "getter"} THEN Ret(s0, Unsup)
                          ELSE ArgsNext(Push(s0, ArgsFrame(fv, fr.ov, fr.x, FALSE)))
     [] fr.f = "callf" -> ArgsNext(Push(s0, ArgsFrame(v, VUndef, fr.x, fr.new)))
     [] fr.f = "args" -> ArgsNext(Repl(st, [fr EXCEPT !.done = Append(@, v)]))
     [] fr.f = "nat" -> NatIter(Repl(st, [fr EXCEPT !.acc = Append(@, v)]))
     [] fr.f = "arrlit" -> IF fr.rest = <<>> THEN Ret(Alloc(s0, <<HArr(Append(fr.done, v))>>), VRef(Len(s0.heap) + 1))
                           ELSE Ev(Repl(st, [fr EXCEPT !.done = Append(@, v), !.rest = Tail(@)]), Head(fr.rest))
-    [] fr.f = "objlit" -> IF fr.rest = <<>> THEN Ret(Alloc(s0, <<HObj(fr.ks, Append(fr.done, v))>>), VRef(Len(s0.heap) + 1))
+    [] fr.f = "objlit" -> IF fr.rest = <<>> THEN Ret(Alloc(s0, <<HObj(fr.ks, fr.kd, Append(fr.done, v))>>), VRef(Len(s0.heap) + 1))
                           ELSE Ev(Repl(st, [fr EXCEPT !.done = Append(@, v), !.rest = Tail(@)]), Head(fr.rest))
     [] OTHER -> HaltWith(st, [o |-> "stuck", why |-> "value into frame " \o fr.f])
 
@@ -529,7 +550,7 @@ InitState(prog, devs) ==
 \* ---------------- invariants of the machine (checked on every state of every run) ------------------------------------------
 ValueFrames == {"exprstmt", "vardecl", "if", "loop", "iterobj", "swdisc", "swtest", "ret", "throw", "binl", "binr", "un",
                 "logic", "cond", "asg", "casg", "comma", "memo", "memp", "masgo", "masgp", "masgr", "mupdo", "mupdp",
-                "callo", "callp", "callf", "args", "nat", "arrlit", "objlit"}
+                "callo", "callp", "callf", "args", "nat", "arrlit", "objlit", "setret", "natsort"}
 StmtFrames == {"seq", "ifdone", "loop", "iter", "swbody", "label", "callret", "scope", "try", "fin"}
 FrameOK(st, fr) ==
   /\ fr.f \in ValueFrames \cup StmtFrames
